@@ -21,6 +21,7 @@ fn main() {
         Some("gen") => {
             let (prop, tier, seed, dir) = (&args[2], &args[3], args[4].parse::<u64>().unwrap(), &args[5]);
             let thorough = tier == "thorough";
+            solver::start_watchdog(60, Some(format!("{}/{}.hang", dir, prop)));
             let mut sink = Sink::default();
             eval::CURRENT_PROP.with(|p| *p.borrow_mut() = prop.clone());
             let debug = cfg!(debug_assertions);
@@ -37,7 +38,9 @@ fn main() {
                     if prop == "C06" {
                         containers::gen_smx(&mut sink, thorough, seed);
                     }
-                    gen_solver::gen_solver::<pubgrub::Range<u32>>(&mut sink, prop, thorough, seed, debug, n)
+                    gen_solver::gen_solver::<pubgrub::Range<u32>>(&mut sink, prop, thorough, seed, debug, n);
+                    // the same properties over a custom VersionSet that relies on the trait's provided methods
+                    gen_solver::gen_solver::<hset::BitSet8>(&mut sink, prop, thorough, seed ^ 0xb175, debug, n / 6)
                 }
                 "C08" | "C09" => gen_solver::gen_trees(&mut sink, prop, thorough, seed, debug),
                 "C07" => {
@@ -59,6 +62,7 @@ fn main() {
         Some("replay") => {
             // re-evaluate every request line of a file on the real implementation
             let text = std::fs::read_to_string(&args[2]).expect("read");
+            solver::start_watchdog(60, None);
             if let Some(p) = args.get(3) {
                 eval::CURRENT_PROP.with(|c| *c.borrow_mut() = p.clone());
             }
